@@ -186,6 +186,31 @@ func stressDVZero(r *hx.Run, f []string) {
 		}
 		got := d.Get()
 		o.lines = append(o.lines, fmt.Sprintf("q dvar %s %s %d", fn, joinInts(vals), got))
+		if forced && !late.Load() {
+			// the schedule was fully forced: the protocol model (with the flags of the code) replays it and must end with the
+			// same derived value and inputs
+			norm := func(i, v int) int {
+				if types == "mix" && i == 1 {
+					return b2i(v != 0)
+				}
+
+				return v
+			}
+			ni, nw := make([]int, n), make([]string, 0, len(writes))
+			for i, v := range inits {
+				ni[i] = norm(i, v)
+			}
+			for _, w := range writes {
+				if w.i < n {
+					nw = append(nw, fmt.Sprintf("%d:%d", w.i, norm(w.i, w.v)))
+				}
+			}
+			if len(nw) == 0 {
+				nw = []string{"-"}
+			}
+			o.pairs = append(o.pairs, [2]string{fmt.Sprintf("dvz %s %s %d %s", fn, joinInts(ni), m, strings.Join(nw, ",")),
+				fmt.Sprintf("d=%d in=%v finished=true", got, vals)})
+		}
 		if exp := fun(vals); exp != got {
 			o.fails = append(o.fails, failure{"derived-variable", fmt.Sprintf("%s: a writer ran inside computation %d of the constructor (NewDerivedVariable%d, inputs at creation %v, writes %s): inputs now %v, compute = %d, DerivedVariable.Get() = %d",
 				strings.Join(f, " "), m, n, inits, f[6], vals, exp, got),
